@@ -1382,21 +1382,28 @@ class CallMixin(object):
             if isinstance(v, TupleVal) and v.items and all(isinstance(x, Const) for x in v.items):
                 return tuple(x.v for x in v.items)
             if isinstance(v, TupleVal) and v.items and isinstance(v.items[0], Const):
+                partial.add(len(keys_))
                 return (v.items[0].v,)
             raise AnalysisError("E5.call", "sorting symbolic values", node, module)
 
-        keys = [skey(v) for _, v in items]
+        partial = set()  # positions whose key is known in its first component only
+        keys_ = []
+        for _, v in items:
+            keys_.append(skey(v))
+        keys = keys_
         norm = [k if isinstance(k, tuple) else (k,) for k in keys]
-        firsts = [k[0] for k in norm]
-        if len(set(map(T.ckey, firsts))) != len(firsts) and any(len(k) == 1 for k in norm) and len(set(map(T.ckey, keys))) != len(keys):
-            raise AnalysisError("E5.call", "sorting with duplicate sort keys", node, module)
+        firsts = [T.ckey(k[0]) for k in norm]
+        for i in partial:
+            if firsts.count(firsts[i]) > 1:
+                # the order among these elements depends on components that are not constants
+                raise AnalysisError("E5.call", "sorting with duplicate sort keys", node, module)
+        # fully constant keys: ties keep the order of the sequence (the sort is stable, also with
+        # reverse=True) - whether that order is the input's field order is the order rules' matter
         try:
-            order = sorted(range(len(items)), key=lambda i: norm[i])
+            order = sorted(range(len(items)), key=lambda i: norm[i], reverse=bool(rev is not None and truth_const(rev.v)))
         except TypeError:
             self.event("mixed_sort", node, module, st)
             raise AnalysisError("E5.call", "sorting mixed types", node, module)
-        if rev is not None and truth_const(rev.v):
-            order = list(reversed(order))
         return [items[i] for i in order]
 
     def list_method(self, st, ref, o, name, args, kwargs, node, module):
